@@ -37,8 +37,10 @@ func VNewGtp5g(wg *sync.WaitGroup, mk func() nl.Conner, famID int, linkIndex int
 	}()
 	g.mux = mux
 	g.link = &Gtp5gLink{mux: mux, conn: gtpu, client: nl.NewClient(mk(), mux), link: &gtp5gnl.Link{Name: "upfgtp", Index: linkIndex}, log: g.log}
-	g.client = &gtp5gnl.Client{Client: nl.NewClient(mk(), mux), ID: famID}
-	g.psClient = &gtp5gnl.Client{Client: nl.NewClient(mk(), mux), ID: famID}
+	cc, pc := mk(), mk()
+	vConns.Store(g, [2]nl.Conner{cc, pc})
+	g.client = &gtp5gnl.Client{Client: nl.NewClient(cc, mux), ID: famID}
+	g.psClient = &gtp5gnl.Client{Client: nl.NewClient(pc, mux), ID: famID}
 	bs, err := buffnetlink.VNewServer(mux)
 	if err != nil {
 		return nil, fmt.Errorf("buffnetlink: %w", err)
@@ -69,6 +71,9 @@ func (g *Gtp5g) VQueryMulti(m map[uint64][]uint32) (map[uint64][]uint32, error) 
 // VCloseRaw releases the OS resources of the driver without going through the periodic server's event channel
 // (clean-up after a scheduler-controlled execution has ended).
 func (g *Gtp5g) VCloseRaw() {
+	if _, done := vClosed.LoadAndDelete(g); done {
+		return
+	}
 	if g.link != nil && g.link.conn != nil {
 		_ = g.link.conn.Close()
 	}
@@ -87,4 +92,29 @@ func (g *Gtp5g) VCloseRaw() {
 			vMuxDone.Delete(g)
 		}
 	}
+}
+
+var vConns sync.Map // *Gtp5g -> the two simulated-kernel connections standing in for g.conn and g.psConn
+
+var vClosed sync.Map // *Gtp5g -> true: closed through VClose (the clean-up must not close again)
+
+// VClose closes the driver exactly as pkg/app does at shutdown (Gtp5g.Close), then waits for go-nl's Mux goroutine
+// to return (see VCloseRaw) and tells the clean-up that nothing is left to release.
+func (g *Gtp5g) VClose() {
+	// g.conn / g.psConn are concrete *nl.Conn fields and stay nil here; the connections standing in for them are
+	// closed first, which is also where Gtp5g.Close closes them (conn, psConn, link, mux, bsnl, ps)
+	if v, ok := vConns.LoadAndDelete(g); ok {
+		for _, c := range v.([2]nl.Conner) {
+			c.Close()
+		}
+	}
+	g.Close()
+	if d, ok := vMuxDone.Load(g); ok {
+		select {
+		case <-d.(chan struct{}):
+		case <-time.After(5 * time.Second):
+		}
+		vMuxDone.Delete(g)
+	}
+	vClosed.Store(g, true)
 }
